@@ -52,3 +52,50 @@ package gmtls
 //@   (requires args (and (not (isnil config)) (not (isnil clientHello)) (not (isnil serverHello)) (not (isnil cert)) (not (isnil skx)))))
 //@ (func "(*Conn).decryptTicket" sweep
 //@   (requires args (not (isnil (field c config)))))
+
+// ---- record layer helpers (conn.go) ----------------------------------------------------------------------------------
+// The implicit sequence number is the 8-byte big-endian counter hc.seq: incSeq adds exactly one and panics only when
+// it would wrap.
+//@ (defmacro seq64 (hc) (concat (at (field hc seq) 0) (at (field hc seq) 1) (at (field hc seq) 2) (at (field hc seq) 3)
+//@                              (at (field hc seq) 4) (at (field hc seq) 5) (at (field hc seq) 6) (at (field hc seq) 7)))
+//@ (func "(*halfConn).incSeq"
+//@   (panics-if (= (seq64 hc) #xffffffffffffffff))
+//@   (ensures next (= (seq64 hc) (bvadd (old (seq64 hc)) #x0000000000000001)))
+//@   (modifies (field hc seq)))
+
+// extractPadding (RFC 2246 6.2.3.2, constant time): toRemove = paddingLen + 1; good = 255 exactly when the record
+// is long enough for its padding and every padding byte equals the padding length, otherwise 0.
+//@ (defmacro plen (p) (at p (bvsub (len p) 1)))
+//@ (defmacro padok (p) (and (bvult (zext (plen p) 64) (len p))
+//@      (forall ((j B64)) (=> (bvule j (zext (plen p) 64)) (= (at p (bvsub (bvsub (len p) 1) j)) (plen p))))))
+//@ (func extractPadding
+//@   (requires size (bvslt (len payload) #x0000000001000000))
+//@   (ensures empty (=> (= (len payload) 0) (and (= toRemove 0) (= good #x00))))
+//@   (ensures remove (=> (bvsgt (len payload) 0) (= toRemove (bvadd (zext (plen payload) 64) 1))))
+//@   (ensures verdict (=> (bvsgt (len payload) 0) (= good (ite (padok payload) #xff #x00))))
+//@   (loop 1
+//@     (invariant range (and (bvsle 0 i) (bvsle i toCheck)))
+//@     (invariant acc (= (= good #xff)
+//@        (and (bvult (zext paddingLen 64) (len payload))
+//@             (forall ((j B64)) (=> (and (bvult j i) (bvule j (zext paddingLen 64)))
+//@                   (= (at payload (bvsub (bvsub (len payload) 1) j)) paddingLen))))))
+//@     (decreases (bvsub toCheck i))))
+
+//@ (func roundUp
+//@   (requires pos (and (bvsge a 0) (bvsle a #x0000000001000000) (bvsge b 1) (bvsle b 256)))
+//@   (ensures up (and (bvsge result a) (bvslt result (bvadd a b)))))
+//@ (func "(*block).reserve" autoloops
+//@   (requires size (and (bvsge n 0) (bvsle n #x0000000001000000)))
+//@   (ensures cap (and (bvsge (cap (field b data)) n) (= (len (field b data)) (old (len (field b data))))))
+//@   (modifies (field b data)))
+//@ (func "(*block).resize"
+//@   (requires size (and (bvsge n 0) (bvsle n #x0000000001000000)))
+//@   (ensures len (and (= (len (field b data)) n) (bvsle n (cap (field b data)))))
+//@   (modifies (field b data)))
+
+// decrypt: for a block holding at least a record header, whatever bytes the peer sent: no panic; the sequence number
+// advances by exactly one when the record is accepted and stays put (alert bad_record_mac) when it is rejected.
+//@ (func "(*halfConn).decrypt" noframe split-returns
+//@   (requires blk (and (not (isnil b)) (bvsge (len (field b data)) 5) (bvsle (len (field b data)) #x0000000000100000)))
+//@   (ensures accepted (=> ok (= (seq64 hc) (bvadd (old (seq64 hc)) #x0000000000000001))))
+//@   (ensures rejected (=> (not ok) (and (= (seq64 hc) (old (seq64 hc))) (= alertValue #x14)))))
